@@ -154,6 +154,13 @@ struct Solved<H> {
     /// all binding conditions hold below the top level, the *last* chunk cancels at the top
     /// level but chunk k does not
     anti_near: Vec<Vec<u32>>,
+    /// [A1,A2,B1,A2]: A1 and B1 are disjoint level-(k-2) blocks whose hashes agree on *all*
+    /// remaining bits, A2 collides with both: every XOR and ordering condition holds, the only
+    /// defect is the repeated block A2 (never in first position of both halves)
+    embedded_dups: Vec<Vec<u32>>,
+    /// final-round candidates (all XOR and ordering conditions hold) whose two halves share
+    /// exactly one index
+    single_dups: Vec<Vec<u32>>,
     dup_candidates: u64,
 }
 
@@ -219,6 +226,7 @@ fn solve<H: Hv>(n: u32, k: u32, st: &B2State, keep: bool, alive: &dyn Fn() -> bo
     let ab0 = (0..big_n as u32).map(|i| (i, i)).collect();
     let mut rounds = vec![Round { h: h0, ab: ab0 }];
     let cap = (big_n as usize) * 6;
+    let mut full_coll: Vec<(u32, u32)> = vec![];
     for r in 1..k as usize {
         if !alive() {
             return None;
@@ -234,7 +242,15 @@ fn solve<H: Hv>(n: u32, k: u32, st: &B2State, keep: bool, alive: &dyn Fn() -> bo
                     let (a, bb) = (order[i], order[j]);
                     let x = prev.h[a as usize].xor(prev.h[bb as usize]).shl(c);
                     if x.zero() {
-                        continue; // same index set on both sides (or an astronomically rare total collision)
+                        // same index set on both sides, or (tiny parameters) a genuine total collision
+                        if r == k as usize - 1 && full_coll.len() < 4 {
+                            let mut e = expand(&rounds, r - 1, a);
+                            e.extend(expand(&rounds, r - 1, bb));
+                            if all_distinct(&e) {
+                                full_coll.push((a, bb));
+                            }
+                        }
+                        continue;
                     }
                     h.push(x);
                     ab.push((a, bb));
@@ -257,6 +273,7 @@ fn solve<H: Hv>(n: u32, k: u32, st: &B2State, keep: bool, alive: &dyn Fn() -> bo
     let mut near_best: Option<(u32, u32, u32)> = None;
     let mut near_seen = 0u64;
     let mut dup = 0u64;
+    let mut single_dups: Vec<Vec<u32>> = vec![];
     let join = |a: u32, b: u32| -> Vec<u32> {
         let mut x = expand(&rounds, k as usize - 1, a);
         let mut y = expand(&rounds, k as usize - 1, b);
@@ -282,6 +299,13 @@ fn solve<H: Hv>(n: u32, k: u32, st: &B2State, keep: bool, alive: &dyn Fn() -> bo
                         }
                     } else {
                         dup += 1;
+                        if single_dups.len() < 6 {
+                            let mut srt = v.clone();
+                            srt.sort_unstable();
+                            if srt.windows(2).filter(|w| w[0] == w[1]).count() == 1 {
+                                single_dups.push(v);
+                            }
+                        }
                     }
                 } else {
                     near_seen += 1;
@@ -303,6 +327,37 @@ fn solve<H: Hv>(n: u32, k: u32, st: &B2State, keep: bool, alive: &dyn Fn() -> bo
         let v = join(a, bb);
         if all_distinct(&v) {
             near.push((v, t));
+        }
+    }
+    let mut embedded_dups = vec![];
+    {
+        let lvl = k as usize - 2;
+        let src = &rounds[lvl];
+        if !src.h.is_empty() {
+            for &(a, bb) in &full_coll {
+                let key = src.h[a as usize].top(c);
+                let ea = expand(&rounds, lvl, a);
+                let eb = expand(&rounds, lvl, bb);
+                for (i, x) in src.h.iter().enumerate() {
+                    if i as u32 == a || i as u32 == bb || x.top(c) != key {
+                        continue;
+                    }
+                    let e2 = expand(&rounds, lvl, i as u32);
+                    let mut all = ea.clone();
+                    all.extend(&eb);
+                    all.extend(&e2);
+                    if !all_distinct(&all) {
+                        continue;
+                    }
+                    let mut v = ea.clone();
+                    v.extend(&e2);
+                    v.extend(&eb);
+                    v.extend(&e2);
+                    canon(&mut v);
+                    embedded_dups.push(v);
+                    break;
+                }
+            }
         }
     }
     let mut anti_near = vec![];
@@ -344,6 +399,8 @@ fn solve<H: Hv>(n: u32, k: u32, st: &B2State, keep: bool, alive: &dyn Fn() -> bo
         sols,
         near,
         anti_near,
+        embedded_dups,
+        single_dups,
         dup_candidates: dup,
     })
 }
@@ -736,6 +793,36 @@ fn mutations_near<H: Hv>(c: &mut Ctx, inst: u64, it: &Instance, s: &Solved<H>, c
         }
         c.judged(inst, n, k, &it.input, &it.nonce, "near-solution", k, &enc);
     }
+    for v in &s.embedded_dups {
+        let enc = encode_minimal(n, k, v);
+        // is the repeated block away from the first position of at least one half?
+        let h = v.len() / 2;
+        if v[0] != v[h] {
+            c.r.count("embedded_duplicate_not_in_first_position", 1);
+        }
+        c.judged(inst, n, k, &it.input, &it.nonce, "embedded-duplicate-subtree", k, &enc);
+    }
+    for v in &s.single_dups {
+        let enc = encode_minimal(n, k, v);
+        // positions of the repeated index, the level at which the two copies meet, and where
+        // each copy sits inside its half of that block
+        let mut p1 = 0;
+        let mut p2 = 0;
+        'f: for i in 0..v.len() {
+            for j in i + 1..v.len() {
+                if v[i] == v[j] {
+                    (p1, p2) = (i, j);
+                    break 'f;
+                }
+            }
+        }
+        let lvl = usize::BITS - (p1 ^ p2).leading_zeros(); // 1 = siblings
+        let half = 1usize << (lvl - 1);
+        let cls = |p: usize| if p % half == 0 { "first" } else if p % half == half - 1 { "last" } else { "inner" };
+        c.r.count(&format!("single_duplicate_leaf_{}_in_left_{}_in_right", cls(p1), cls(p2)), 1);
+        c.r.count(if lvl == k { "single_duplicate_leaf_meeting_at_top_level" } else { "single_duplicate_leaf_meeting_below_top_level" }, 1);
+        c.judged(inst, n, k, &it.input, &it.nonce, "single-duplicate-leaf", k, &enc);
+    }
     for v in &s.anti_near {
         let enc = encode_minimal(n, k, v);
         c.judged(inst, n, k, &it.input, &it.nonce, "near-solution-last-chunk-only", k, &enc);
@@ -823,6 +910,25 @@ fn solved_instance<H: Hv>(c: &mut Ctx, rng: &mut ChaCha20Rng, it: &Instance, fli
         mutations_near(c, inst, it, &s, 1usize << it.k);
     }
     let _ = (s.n, s.k);
+}
+
+/// Cheap search over many tiny instances for sequences whose only defect is a repeated subtree.
+fn hunt_embedded_duplicates(c: &mut Ctx, rng: &mut ChaCha20Rng, count: u64) {
+    for i in 0..count {
+        if !c.r.time_left() {
+            break;
+        }
+        let (n, k) = [(32, 3), (40, 4), (32, 3)][(i % 3) as usize];
+        let it = random_instance(rng, n, k);
+        let st = pow_state(n, k, &it.input, &it.nonce);
+        let Some(s) = solve::<u128>(n, k, &st, true, &|| true) else { continue };
+        c.r.count("embedded_duplicate_hunt_instances", 1);
+        if s.embedded_dups.is_empty() && s.single_dups.is_empty() {
+            continue;
+        }
+        let inst = c.new_instance(n, k, &it.input, &it.nonce);
+        mutations_near(c, inst, &it, &s, 1usize << k);
+    }
 }
 
 fn random_instance(rng: &mut ChaCha20Rng, n: u32, k: u32) -> Instance {
@@ -1137,6 +1243,8 @@ fn main() {
     phase_grid(&mut c, &mut rng, &args);
     phase_vectors(&mut c, &mut rng, &args, flip_cap);
     phase_random_strings(&mut c, &mut rng);
+    let hunt = args.get_u64("hunt-instances", args.pick(3000, 60_000));
+    hunt_embedded_duplicates(&mut c, &mut rng, hunt);
 
     // solver-backed instances until the budget or the cap is reached: (n, k, weight).
     // Index widths 9..=21 bits (quick) / ..=23 (thorough) + 25 (heavy set below); hash outputs holding
